@@ -120,7 +120,7 @@ func C11(run *hx.Run) {
 	rng := newRng(run, 11)
 	grid := hx.Grid()
 	if run.Thorough() {
-		grid = hx.ExtendGrid(grid, rng, 800)
+		grid = hx.ExtendGrid(grid, rng, 2200)
 	} else {
 		grid = hx.ExtendGrid(grid, rng, 60)
 	}
@@ -207,7 +207,7 @@ func C11(run *hx.Run) {
 	// multi-column keys
 	trials := 40000
 	if run.Thorough() {
-		trials = 1500000
+		trials = 8000000
 	}
 	for t := 0; t < trials; t++ {
 		klen := 1 + rng.Intn(3)
